@@ -9,6 +9,8 @@ From CG Require Import Model.Check.
 From CG Require Import Model.Dfa.
 From CG Require Import Spec.Choice.
 From CGgen Require Import Consts.
+From CG Require Import Model.Lexer.
+From CG Require Import Model.Parser.
 (* add new Require lines above this line *)
 Require Import ExtrOcamlBasic ExtrOcamlString.
 Extraction Language OCaml.
@@ -23,5 +25,8 @@ Separate Extraction
   Dfa.mkall
   Dfa.trans_states
   Choice.spec
+  Parser.parse
+  Parser.parse_with
+  Parser.repaired
   (* add new roots above this line *)
   Prelude.pow2.
